@@ -26,7 +26,7 @@ Proof. intros H. apply with_sub_inv in H as (x & y & _ & _ & ->). cbn. auto. Qed
 Lemma step_nonop_cur cfg (m m' : state) (l : label) :
   (forall o ok, l <> LOp o ok) -> step cfg m l = Some m' -> cur m' = cur m /\ hist m' = hist m.
 Proof.
-  intros Hl H. destruct l; try (exfalso; eapply Hl; reflexivity); cbn [step] in H;
+  intros Hl H. destruct l; try (exfalso; eapply Hl; reflexivity); unfold step in H; cbn [stepx fix_fwd] in H;
     try (apply with_sub_frame in H; tauto).
   - destruct (is_nil (pend m)); inversion H; subst; cbn; auto.
   - destruct (memn i (pend m)); [|discriminate].
